@@ -3,6 +3,7 @@
   Statements only; lemmas in Proofs/Control.lean.
 -/
 import KamalProxy.Proofs.Control
+import KamalProxy.Proofs.ProxyInv
 namespace KamalProxy.C05
 open KamalProxy Spec
 
@@ -118,6 +119,19 @@ theorem C05_second_rejected (c : Core) (n1 n2 : Bytes) (ts1 ts2 : List Bytes) (o
   refine ⟨keyOf v, ?_, by simpa [keyOf, hn] using hne, h, h2, by simpa [keyOf, ho] using h1, p, p2,
     by simpa [keyOf, ho] using p1⟩
   rw [hs]; exact keyOf_mem_setSvc _ _
+
+/-- **C05 under concurrency, for every schedule of the concurrent model M4**: whatever commands, requests,
+    probes and hook releases overlap — in particular two deploys racing for one host, each parked anywhere
+    before its install step — every entry of the routing table refers to an existing service object and two
+    installed services never hold the same host: the availability check and the table update are one atomic
+    step of the interpreter (tie `tie_install_check_and_set_atomic`), and this invariant is carried through
+    every other step. -/
+theorem C05_global_hosts (ops : List Proxy.Op) :
+    (∀ p ∈ (Proxy.runOps ops).table, (Proxy.getO (Proxy.runOps ops) p.2).isSome = true) ∧
+    (∀ p ∈ (Proxy.runOps ops).table, ∀ q ∈ (Proxy.runOps ops).table, ∀ op oq,
+      Proxy.getO (Proxy.runOps ops) p.2 = some op → Proxy.getO (Proxy.runOps ops) q.2 = some oq →
+      op.host = oq.host → op.name = oq.name) :=
+  (Proxy.J_runOps ops).host
 
 -- non-vacuity: a history in which a conflicting deploy is actually refused
 def exOpts (hosts prefixes : List String) : SvcOptions :=
